@@ -101,6 +101,11 @@ def simulate(d, num, depth_fills, depth_ops, seed, name="MCsim", size="full", ns
              weights=None, factors=None, timeout=600, data=None):
     """random behaviours of HgSystem (tlc -simulate); returns list of operation sequences"""
     data = data or alphabet(d, size)
+    if len(data) > 14:
+        # a random walk enumerates every successor of every state it visits: thin the alphabet (seeded)
+        import random as _r
+
+        data = _r.Random(seed).sample(data, 14)
     weights = weights or [Q(1), Q(2), Q(F(1, 2)), Q(0), Q(-1), NAN]
     factors = factors or [Q(F(1, 2)), Q(2), Q(3), Q(1), Q(0), NAN, Q(-1)]
     text = mc_module(name, d, data, weights, factors)
